@@ -585,10 +585,17 @@ func (j *jsonReader) Bitmask(realtag, tag int) (int32, error) {
 		result := int32(0)
 		for _, part := range parts {
 			part = strings.TrimSpace(part)
+			if part == "" {
+				// An empty mask is written as an empty string
+				continue
+			}
 			var parsed int64
 			var err error
 			if strings.HasPrefix(part, "0x") {
-				parsed, err = strconv.ParseInt(part[2:], 16, 32)
+				var u uint64
+				u, err = strconv.ParseUint(part[2:], 16, 32)
+				//nolint:gosec // the 32 bits of the mask, bit 31 included
+				parsed = int64(int32(uint32(u)))
 			} else {
 				parsed, err = strconv.ParseInt(part, 10, 32)
 				if err != nil {
